@@ -24,8 +24,8 @@ class Case:
         self.w, self.t, self.opts, self.tag, self.pos, self.inner = w, t, opts, tag, pos, inner
         self.model, self.go, self.crash = None, None, None
 
-    def to_replay(self):
-        return {"w": self.w, "t": self.t, "opts": self.opts.go(), "tag": self.tag, "pos": self.pos}
+    def to_replay_json(self):
+        return {"w": wire_to_json(self.w), "t": self.t, "opts": self.opts.go(), "tag": self.tag, "pos": self.pos}
 
 
 def _tup(x):
@@ -175,12 +175,13 @@ def _go_oracle(env, queries):
             env["oracle"][(bytes.fromhex(f), bytes.fromhex(a))] = bytes.fromhex(r)
 
 
-def _model_line(env, c, extra):
+def _model_line(env, c, extra, go=None):
     names = G.struct_names(c.t, set()) | set(env["registered"])
     qs = G.oracle_queries(c.w) | extra
     orc = " ".join("(x%s x%s x%s)" % (f.hex(), a.hex(), env["oracle"][(f, a)].hex()) for f, a in sorted(qs) if (f, a) in env["oracle"])
-    return "(case %s %s (type %s) (wire %s) (orc %s))" % (
-        c.opts.sexp(env["registered"]), G.tenv_sexp(env["structs"], names), G.type_sexp(c.t), G.wire_sexp(c.w), orc)
+    return "(case %s %s (type %s) (wire %s) (orc %s)%s)" % (
+        c.opts.sexp(env["registered"]), G.tenv_sexp(env["structs"], names), G.type_sexp(c.t), G.wire_sexp(c.w), orc,
+        " (go %s)" % go if go else "")
 
 
 def _kv(line):
@@ -208,8 +209,13 @@ def execute(ctx, env, cases):
         again, need = [], set()
         for c, out in zip(todo, outs):
             c.model = _kv(out) if not out.startswith("MODEL-ERROR") else {"out": "modelerror", "msg": out[:200]}
+            miss = None
             if c.model.get("out") == "miss":
-                q = (bytes.fromhex(c.model["fn"]), bytes.fromhex(c.model["arg"][1:]))
+                miss = (c.model["fn"], c.model["arg"])
+            elif c.model.get("rep") == "miss":
+                miss = (c.model["rfn"], c.model["rarg"])
+            if miss:
+                q = (bytes.fromhex(miss[0]), bytes.fromhex(miss[1][1:]))
                 if q in extra[c.id]:
                     c.model = {"out": "modelerror", "msg": "oracle entry rejected: %r" % (q,), "hex": c.model.get("hex", "")}
                     continue
@@ -233,6 +239,17 @@ def execute(ctx, env, cases):
         c.go = obs_by_id.get(c.id)
         if c.id in crashed:
             c.crash = crashed[c.id]
+    # the property's oracle on the implementation's behaviour where it differs from the model's
+    env["extra"] = extra
+    redo = [c for c in cases if c.model.get("mv") and not agree(c)]
+    lines = []
+    for c in redo:
+        g = go_class(c)
+        go = "ok " + c.go["val"] if g == "ok" else ("err" if g == "err" else "panic")
+        lines.append(_model_line(env, c, extra[c.id], go))
+    outs = hv.run_model("c06", lines) if lines else []
+    for c, out in zip(redo, outs):
+        c.model["gv"] = _kv(out).get("gv", "unknown")
 
 
 # ---------------------------------------------------------------------------------------- judgement
@@ -253,8 +270,8 @@ def model_class(c):
 def agree(c):
     """Projected observables: outcome class, and the value when both succeed."""
     g, m = go_class(c), model_class(c)
-    if m == "panic" and c.model.get("site") == "objintoiimap":
-        return g == "fatal"
+    if m == "panic" and c.model.get("site") in ("objintoiimap", "mapcopy"):
+        return g in ("fatal", "walkpanic", "panic")     # memory corrupted: the process dies now or on first use
     if g != m:
         return False
     if g == "ok":
@@ -267,6 +284,76 @@ def short(c):
             "model": {k: c.model.get(k) for k in ("out", "val", "cls", "site", "why", "msg") if c.model.get(k) is not None},
             "go": ({k: c.go.get(k) for k in ("out", "val", "msg") if c.go.get(k)} if c.go else None),
             "crash": (c.crash[1][-300:] if c.crash else None)}
+
+
+UNSIGNED = ("KUint", "KUint8", "KUint16", "KUint32", "KUint64", "KUintptr")
+
+
+def _ints_in(w, acc):
+    t = w[0]
+    if t in ("i", "l"):
+        acc.append(w[1])
+    elif t in ("a", "m"):
+        for x in w[1]:
+            _ints_in(x, acc)
+    elif t == "c":
+        _ints_in(w[3], acc)
+    elif t == "o":
+        for x in w[2]:
+            _ints_in(x, acc)
+    return acc
+
+
+def _has_tag(w, tag):
+    t = w[0]
+    if t == tag:
+        return True
+    if t in ("a", "m"):
+        return any(_has_tag(x, tag) for x in w[1])
+    if t == "c":
+        return _has_tag(w[3], tag)
+    if t == "o":
+        return any(_has_tag(x, tag) for x in w[2])
+    return False
+
+
+def finding_key(c, verdict):
+    """One key per defect class (what the value is converted into x which value class)."""
+    ts = G.type_sexp(c.t)
+    if c.inner is not None:
+        ts = G.type_sexp(c.inner[1])      # the same token and type in another position: one defect class
+    msg = ((c.go or {}).get("msg") or "") + (c.crash[1] if c.crash else "")
+    if verdict == "panic":
+        if "unhashable" in msg:
+            return "c06:unhashable-map-key-panics", "a list, map or byte string used as a map key makes the decoder panic (hash of unhashable type)"
+        if c.model.get("site") == "objintoiimap" or "name offset" in msg or go_class(c) == "fatal" and _has_tag(c.w, "o") and "(map (iface)" in ts:
+            return "c06:object-into-interface-keyed-map-corrupts-memory", "an object decoded into map[interface{}]interface{} writes a string header as an interface key: the process dies"
+        if c.model.get("site") == "objasmapfield":
+            return "c06:object-as-map-unknown-field-nil-deref", "an object of a registered class with a field the Go type does not have, decoded into map[string]interface{}: nil FieldAccessor dereferenced"
+        if c.model.get("site") == "mapcopy":
+            return "c06:reference-to-object-map-corrupts-typed-map", "a reference to an object that was read as map[string]interface{}, decoded into a typed map: mapCopy reads the map header as a pointer"
+        return "c06:panic:" + (c.model.get("site") or "unknown") + ":" + c.w[0], "the decoder panics on a well-formed stream"
+    if verdict in ("missingerror", "wrongvalue"):
+        ints = _ints_in(c.w, [])
+        if _has_tag(c.w, "d") and ("(int " in ts or "bigint" in ts):
+            return "c06:float-to-int-truncates-silently", "a double that is not an integer of the destination's range is converted to an integer without error"
+        if "(iface)" in ts and _has_tag(c.w, "l"):
+            if c.opts.long in ("uint", "uint64") and any(z < 0 for z in ints):
+                return "c06:negative-into-unsigned-wraps", "a negative integer decoded into an unsigned destination wraps around without error"
+            return "c06:integer-above-int64-in-interface-wraps", "a long outside the configured integer type decoded into interface{} wraps around without error"
+        if "(int " in ts or "(struct" in ts:
+            if any(u in ts for u in UNSIGNED) and any(z < 0 for z in ints):
+                return "c06:negative-into-unsigned-wraps", "a negative integer decoded into an unsigned destination wraps around without error"
+            return "c06:narrowing-int-overflow-wraps-silently", "an integer outside the destination's range is stored modulo 2^n without error"
+        return "c06:%s:%s:%s" % (verdict, ts[:40], c.w[0]), "the decoder returns a value where the destination cannot represent the denoted value"
+    if verdict == "spuriouserror":
+        return "c06:refuses-representable:%s:%s" % (ts[:40], c.w[0]), "the decoder reports an error although the destination can represent the denoted value exactly"
+    return "c06:%s:%s" % (verdict, c.w[0]), verdict
+
+
+def project(pos, val):
+    """The inner value of a decoded wrapper (position independence)."""
+    return None
 
 
 def judge(ctx, env, cases, verbose=False):
@@ -295,4 +382,24 @@ def judge(ctx, env, cases, verbose=False):
                  "detail": short(c), "failing_input": False,
                  "correspondence": "Model/DecVal.v dec vs io.Decoder.Decode"})
     ctx.note("unmodelled_paths", unmodelled)
+    # the property's own oracle on the implementation's behaviour (every case, agreeing or not)
+    groups = {}
+    for c in cases:
+        v = c.model.get("gv") or c.model.get("mv")
+        ctx.bump("verdicts", v or "none")
+        if v in (None, "ok", "unspec", "specmiss", "unknown"):
+            continue
+        key, what = finding_key(c, v)
+        g = groups.setdefault(key, [what, [], set()])
+        g[1].append(c)
+        g[2].add(v)
+    for key, (what, cs, vs) in sorted(groups.items()):
+        cs.sort(key=lambda c: (len(c.model.get("hex") or ""), c.id))
+        c = cs[0]
+        bad += 1
+        ctx.bump("finding_cases", key, len(cs))
+        ctx.report(key, "%s; minimal stream %s into %s (%d cases, verdicts %s)" % (
+            what, bytes.fromhex(c.model.get("hex") or "").decode("latin1"), G.type_sexp(c.t), len(cs), ",".join(sorted(vs))),
+            {"case": c.to_replay_json(), "detail": short(c), "failing_input": True, "stream_hex": c.model.get("hex"),
+             "expected": c.model.get("repval") or c.model.get("rep"), "cases": len(cs)})
     return bad
